@@ -16,10 +16,9 @@ def _guard(f, args):
     except Exception as ex:
         import traceback
         tb = traceback.extract_tb(ex.__traceback__)
-        inrepo = [fr for fr in tb if "/pyyeti/" in fr.filename]
-        if inrepo:
-            return (args, 1, [dict(item="exception", detail="the real code raised %r at %s:%s" % (ex, inrepo[-1].filename, inrepo[-1].lineno))])
-        raise
+        fr_ = ([fr for fr in tb if "/pyyeti/" in fr.filename] or [tb[-1]])[-1]
+        return (args, 1, [dict(item="symbolic run completes", undecided=True, detail="exception while the real code ran on SYMBOLIC stand-ins (%r at %s:%s): not a violation unless a "
+                               "concrete run reproduces it - tool limit" % (ex, fr_.filename, fr_.lineno))])
 
 
 def syms():
